@@ -96,7 +96,14 @@ def run(ctx):
             t = cases.tree(tj)
             xa = apply_acl(t, compile_acl_text(ta, vendor))
             xb = apply_acl(t, compile_acl_text(tb, vendor))
-            xab = apply_acl(t, compile_acl_text(ta + tb, vendor))
+            # the merged ACL: plain concatenation of the two texts, or -- every other case -- annet's own merger for the ACLs of several
+            # generators (RunGeneratorResult.acl_text(): each text comes with the indentation of the source it was written in)
+            if len(recs) % 2:
+                from .c02 import combined_text
+                merged_text = combined_text(rnd, [("A", a), ("B", b)])
+            else:
+                merged_text = ta + tb
+            xab = apply_acl(t, compile_acl_text(merged_text, vendor))
             rec.update({"xa": cases.jtree(xa), "xb": cases.jtree(xb), "xab": cases.jtree(xab)})
         except Exception as e:
             rec.update({"xa": [], "xb": [], "xab": [], "exc": repr(e)})
